@@ -33,6 +33,19 @@ failure has in the original scope + ":<class of the name alphabet>"):
                        contigs / unknown name (jumps back over up to N-1 contigs), ordered triples of positions at the ends and
                        11-12 contigs from the end, the full genome and rotations of it
 
+Ragged key columns (cases with "col": "ragged" or groupby keys "ragged"; evaluated after the name families, under a budget of
+their own; signatures = the signature the same failure has with the library's datatypes [+ ":<class of the name alphabet>"] +
+":ragged-keys", groupby: "groupby:ragged:..."):
+  column storage       the tables are user-defined bnpdataclasses whose contig column is a plain `str` field (as in the library's own
+                       multistream test) - stored as ragged encoded strings (EncodedRaggedArray: rows of unequal length, change
+                       detection by get_ragged_changes), not as the fixed-width StringArray of Interval / BedGraph
+  name alphabets       the original one (chr1, chr10, chr2 ...), the families above, and (repeated-char-names) bare Ensembl-style
+                       names of one character and of that character repeated - 1, 11, 111, 2, 22 in lexicographic and 1, 2, 11,
+                       12, 22 in natural order - where a name of length 1 compared element-wise with a longer name broadcasts;
+                       these two families also with the library's datatypes (StringArray / StringEncoding) in groupby
+  contracts            all of the above (no file input: files are read into the library's datatypes); genomes of 2..4 contigs
+                       (thorough 1..5), plain / sort_names / with_ignored_added; many contigs: genomes 1 .. 13 (thorough: + 24)
+
 Entries are identified by a unique id (start == uid, stop == uid+1, bedgraph value == 2**uid), so any entry that is
 lost, duplicated or handed to another contig is visible in every observer.
 """
@@ -75,7 +88,14 @@ FAMILIES = {
     "natural": {"names": ["chr2", "chr10", "chr11", "chr20", "chr21"], "unknown": "chr1", "ign": "chrM", "cls": "natural-order"},
     # genomes of many contigs (natural order chr1 .. chr40): order discrepancies that jump back over many contigs
     "many": {"names": ["chr%d" % i for i in range(1, 41)], "unknown": "chr0", "ign": "chrM", "cls": "many-contigs"},
+    # bare names of one character and of that character repeated: element-wise comparison of a length-1 name with a longer one
+    # broadcasts ('1' vs '11' / '111').  Lexicographic genome order / natural (Ensembl) genome order
+    "repeat": {"names": ["1", "11", "2", "22", "111"], "unknown": "222", "ign": "M", "cls": "repeated-char-names"},
+    "ensembl": {"names": ["1", "2", "11", "12", "22"], "unknown": "21", "ign": "MT", "cls": "repeated-char-names"},
+    # many contigs with bare numeric names 1 .. 40 (natural order)
+    "manynum": {"names": ["%d" % i for i in range(1, 41)], "unknown": "0", "ign": "MT", "cls": "many-contigs"},
 }
+RAGGED = "ragged"  # case key "col": contig column stored as ragged encoded strings (user dataclass with a `str` field)
 
 
 def fam_names(fam):
@@ -92,6 +112,11 @@ def fam_ign(fam):
 
 def fam_suffix(fam):
     return ":" + FAMILIES[fam]["cls"] if fam else ""
+
+
+def case_suffix(case):
+    """signature suffix of the extended scopes: class of the name alphabet, storage class of the contig column"""
+    return fam_suffix(case.get("fam")) + (":ragged-keys" if case.get("col") == RAGGED else "")
 
 
 # ----------------------------------------------------------------------------------------------- reference model
@@ -181,18 +206,52 @@ def split_chunks(entries, chunks):
     return out
 
 
-def make_table(entries, kind):
-    from bionumpy.datatypes import Interval, BedGraph
+_RAGGED_CLASSES = {}
+
+
+def table_class(kind, col=None):
+    """the library's Interval / BedGraph (contig column: StringArray), or for col == RAGGED user-defined tables with the same
+    fields whose contig column is a plain `str` field (stored as EncodedRaggedArray)"""
+    if col != RAGGED:
+        from bionumpy.datatypes import Interval, BedGraph
+        return BedGraph if kind == "bedgraph" else Interval
+    if not _RAGGED_CLASSES:
+        from bionumpy.bnpdataclass import bnpdataclass
+
+        @bnpdataclass
+        class RaggedInterval:
+            chromosome: str
+            start: int
+            stop: int
+
+        @bnpdataclass
+        class RaggedBedGraph:
+            chromosome: str
+            start: int
+            stop: int
+            value: float
+
+        _RAGGED_CLASSES.update(interval=RaggedInterval, bedgraph=RaggedBedGraph)
+    return _RAGGED_CLASSES[kind]
+
+
+def make_table(entries, kind, col=None):
+    """every table (every chunk of a stream) is built from its own entries - never by slicing a larger table"""
+    cls = table_class(kind, col)
+    if col == RAGGED:
+        cols = [[nm for nm, _, _ in entries], [s for _, s, _ in entries], [e for _, _, e in entries]]
+        if kind == "bedgraph":
+            cols.append([float(2 ** s) for _, s, _ in entries])
+        return cls(*cols)
     if kind == "bedgraph":
-        return BedGraph.from_entry_tuples([(nm, s, e, float(2 ** s)) for nm, s, e in entries])
-    return Interval.from_entry_tuples(list(entries))
+        return cls.from_entry_tuples([(nm, s, e, float(2 ** s)) for nm, s, e in entries])
+    return cls.from_entry_tuples(list(entries))
 
 
-def make_stream(entries, chunks, kind="interval"):
-    from bionumpy.datatypes import Interval, BedGraph
+def make_stream(entries, chunks, kind="interval", col=None):
     from bionumpy.streams import NpDataclassStream
-    tables = [make_table(c, kind) for c in split_chunks(entries, chunks)]
-    return NpDataclassStream(iter(tables), dataclass=BedGraph if kind == "bedgraph" else Interval)
+    tables = [make_table(c, kind, col) for c in split_chunks(entries, chunks)]
+    return NpDataclassStream(iter(tables), dataclass=table_class(kind, col))
 
 
 def names_of(col):
